@@ -10,7 +10,7 @@ for f in sorted(glob.glob(ROOT+'/.work/confirm-*.txt')):
 det={}
 for f in sorted(glob.glob(ROOT+'/.work/seedmut*.txt'), key=os.path.getmtime):
     for l in open(f):
-        m=re.match(r's(\S+) (C\d+) exit=(\d+) violations=(\d+)\s*(.*)',l.strip())
+        m=re.match(r's?(C\d+[a-z]?-\d+)[a-z]? (C\d+) exit=(\d+) violations=(\d+)\s*(.*)',l.strip())
         if m:
             det.setdefault(m.group(1),{})[m.group(2)]={'exit':int(m.group(3)),'violations':int(m.group(4)),'keys':re.sub(r'\s+',' ',m.group(5))[:300]}
 rows=[]
